@@ -26,7 +26,7 @@ func init() {
 			return stdBatches([]string{"base"}, 16)
 		},
 		Gates: func(tier string) map[string]int64 {
-			g := map[string]int64{"roundtrips": 20000, "dynamic": 1000, "with_unknown": 500, "with_any": 5, "with_extension": 10, "nonrep_cases": 500, "nonrep_marshal_error": 100}
+			g := map[string]int64{"roundtrips": 20000, "dynamic": 1000, "with_unknown": 500, "with_any": 5, "with_extension": 10, "nonrep_cases": 500, "nonrep_marshal_error": 100, "local_resolver_roundtrips": 60, "local_resolver_extensions_inside_any": 200}
 			for i := 0; i < 64; i++ {
 				g[fmt.Sprintf("opt:%02d", i)] = 100
 			}
@@ -171,6 +171,55 @@ func runC20(c *core.Ctx, b core.Batch) {
 		c20Case(c, mt, src, want, dyn, oi)
 	})
 	c20NonRepresentable(c, b)
+	if b.Cfg == "base" && b.N == 0 {
+		c20Local(c)
+	}
+}
+
+// c20Local round-trips Any values whose embedded message and its extensions
+// are known to a caller-supplied resolver only.
+func c20Local(c *core.Ctx) {
+	la, err := newLocalAny(20)
+	if err != nil {
+		c.Violation("harness:local-schema-invalid", map[string]any{"err": errStr(err)})
+		return
+	}
+	for k := 0; k < c.Scale(200, 4000); k++ {
+		r := c.Rng(uint64(0x20a)<<32 | uint64(k))
+		want, nx := la.content(r, true)
+		ws := la.snap(want)
+		opts := c20Opts(k % 64)
+		opts.Resolver = la.types
+		opts.AllowPartial = true
+		c.Eval()
+		c.Count("local_resolver_roundtrips")
+		c.CountN("local_resolver_extensions_inside_any", int64(nx))
+		c.Log("C20 local-resolver case=%d opts=%d snapshot=%s", k, k%64, clip(ws.String(), 4000))
+		var out []byte
+		var err error
+		if !c.NoPanic("json:local-resolver:marshal-panic", map[string]any{"snapshot": clip(ws.String(), 2000)}, func() { out, err = opts.Marshal(want.Interface()) }) {
+			continue
+		}
+		if err != nil {
+			c.Violation("json:local-resolver:marshal-error", map[string]any{"err": errStr(err), "snapshot": clip(ws.String(), 2000)})
+			continue
+		}
+		c.DistinctBytes([]byte("local"), out)
+		got := la.carrier.New()
+		var uerr error
+		if !c.NoPanic("json:local-resolver:unmarshal-panic", map[string]any{"json": clip(string(out), 3000)}, func() {
+			uerr = protojson.UnmarshalOptions{AllowPartial: true, Resolver: la.types}.Unmarshal(out, got.Interface())
+		}) {
+			continue
+		}
+		if uerr != nil {
+			c.Violation("json:local-resolver:unmarshal-error-on-own-output", map[string]any{"err": errStr(uerr), "json": clip(string(out), 3000)})
+			continue
+		}
+		if gs := la.snap(got); gs.String() != ws.String() {
+			c.Violation("json:local-resolver:roundtrip:"+firstDiff(ws, gs), map[string]any{"json": clip(string(out), 3000), "want": clip(ws.String(), 1500), "got": clip(gs.String(), 1500)})
+		}
+	}
 }
 
 func c20Case(c *core.Ctx, mt protoreflect.MessageType, src, want protoreflect.Message, dyn bool, oi int) {
